@@ -205,5 +205,18 @@ PROPS["C04"] = {
     "technique": "runtime monitoring: reference-model oracle (router) over generated configurations and requests; metamorphic invariance check",
 }
 
+PROPS["C09"] = {
+    "level": "fault_enumeration",
+    "engines": [
+        {"bin": "hv", "args": ["c09"]},
+    ],
+    "min": {"quick": {"exchanges": 3000, "cut_responses": 2500, "complete_responses": 100, "stall_and_refusal_cases": 40, "malformed_upstream_cases": 200, "upstream_records_checked": 2000, "proxy_handler_calls": 100, "load_balancer_histories": 200},
+            "thorough": {"exchanges": 40_000}},
+    "assumptions": [],
+    "level_text": "proxy_request and proxy_handler are executed against a scripted upstream for every enumerated fault: each valid response cut at every byte offset, non-HTTP answers, refusal, silence, close, trickle; the returned response and its latency are judged against the reference reader's verdict on what the upstream actually sent, and the upstream's record of the relayed request is compared with the client's request.",
+    "level_note": "Trusted: hvcommon::net scripted server, httpref; wall-clock bound timeout + 3 s.",
+    "technique": "runtime monitoring: fault enumeration against a scripted peer with return-value, latency and peer-side event-log oracles; conservation check for round-robin",
+}
+
 # properties without a check, with the reason (kept current)
 NOT_CLAIMED = {}
